@@ -1,7 +1,7 @@
 import PhyModel.Proofs.StoreCache_Vec
 /-! C06, `Tree.from_dict`: every payload is created afresh from its `_data` list (so its `p` is right
 by construction) and every `r` is recomputed (`updAll`); this holds for any dictionary. -/
-namespace PhyModel.Store
+namespace PhyModel.Store.C06
 open PhyModel
 
 theorem POK_buildSF (dt : Data) (d : Store.TDict) : ∀ (fuel : Nat) (cs : List Nat) (f : SF),
@@ -39,4 +39,4 @@ theorem cacheOK_fromDict (dt : Data) (d : Store.TDict) (s' : Store)
       cases h
       exact ⟨cacheOKsf_updAll dt _ (POK_buildSF dt d _ _ f0 hf0), fun _ => rfl⟩
 
-end PhyModel.Store
+end PhyModel.Store.C06
